@@ -106,6 +106,9 @@ func c06Scenarios(tier string) []*Scenario {
 		add(c, RPC{Kind: "ss", Client: []string{"S0", "C", "R*"}, Handler: []string{"r", "s0", "s1", "ret:ok"}})
 		add(c, RPC{Kind: "bd", Client: []string{"S0", "S1", "C"}, Client2: []string{"R*"}, Handler: []string{"r", "s0", "r", "s1", "r*", "ret:ok"}})
 		add(c, RPC{Kind: "bd", Client: []string{"S0", "S1", "C", "R*"}, Handler: []string{"w", "ret:ctx"}})
+		// the handler has returned (final frames not yet taken by a client that is not receiving) while
+		// a goroutine it left behind still receives: a request sent now is still copied before SendMsg returns
+		add(c, RPC{Kind: "bd", Client: []string{"S0", "S1", "S2"}, Handler: []string{"go", "t:b", "ret:st:5"}, Handler2: []string{"r", "r", "r"}})
 		// the empty message (zero bytes when encoded) is a message like any other
 		add(c, RPC{Kind: "cs", Client: []string{"E0", "S1", "C", "R*"}, Handler: []string{"r*", "s0", "ret:ok"}})
 		add(c, RPC{Kind: "bd", Client: []string{"E0", "E1", "C"}, Client2: []string{"R*"}, Handler: []string{"r", "s0", "r*", "ret:ok"}})
